@@ -255,6 +255,9 @@ class Cache2D:
         testout = sel_dist(testx, testx, params)
         # We need atol=0 here to ensure small values don't lead to spurious pass of test
         symmetric_dfe = np.allclose(testout, testout.T, atol=0, rtol=1e-12)
+        # The test points can all lie where the pdf underflows to zero, so also
+        # require symmetry at the cached gammas themselves.
+        symmetric_dfe = symmetric_dfe and np.allclose(weights, weights.T, atol=0, rtol=1e-12)
 
         max_gamma = -self.neg_gammas[-1]
         min_gamma = -self.neg_gammas[0]
